@@ -115,6 +115,9 @@ namespace occa {
 
           kernelMetadata_t &metadata = metadataMap[func.name()];
           metadata.name = func.name();
+          // A kernel without arguments still has metadata
+          // (kernelMetadata_t::fromJson also marks it as initialized)
+          metadata.initialized = true;
 
           int args = (int) func.args.size();
           for (int ai = 0; ai < args; ++ai) {
